@@ -4,7 +4,8 @@ import json
 from . import core
 from .core import cq_bool, cq_list, cq_nat, cq_pos
 
-THEOREMS = ["C17_aliases_closure", "C17_canonical_consistent", "C17_invariants", "C17_legal_example"]
+THEOREMS = ["C17_aliases_closure", "C17_canonical_consistent", "C17_invariants", "C17_legal_example",
+            "C17_history_invariants", "C17_remove", "C17_copy_independent", "C17_copy_equal"]
 
 
 def tog(v):
@@ -262,11 +263,12 @@ def run(ctx):
     ctx.notes["input_distribution"] = {"ops": opcount, "effective_removes": eff_removes,
                                        "histories": len(cases)}
     ctx.assumptions += [
-        "value-level model: copy() is the identity on values; the sharing of Python set objects between keys and "
-        "between a relation and its copy is exercised by the correspondence check only (not proved)",
-        "remove() and canonical_variables/iteration are in the executable model and in the correspondence; the "
-        "closure theorem is proved for add-histories (C17_aliases_closure), removal is validated against the "
-        "independent reference closure on every generated history",
+        "value-level model: copy() is the identity on values (C17_copy_equal / C17_copy_independent are proved at that "
+        "level); the sharing of Python set objects between keys and between a relation and its copy is exercised by "
+        "the correspondence check only (a shallow copy() is caught there and by the oracle)",
+        "the closure theorem C17_aliases_closure is proved for add-histories; for histories with remove/copy the "
+        "invariants (C17_history_invariants) and the exact effect of remove (C17_remove) are proved, and the "
+        "closure-minus-removed-classes reading is validated against the independent reference on every generated history",
     ]
 
 
